@@ -27,6 +27,15 @@
                          can be left unreported;
    C09_no_queue_growth_when_terminating  once terminating, no operation makes
                          the queue of unstarted transfers longer;
+   C09_close_reports_unstarted  a close that takes effect (close(), terminate()
+                         before the session exists, end of stream, send error,
+                         bad contact header, _check_sess_term) empties the queue
+                         of unstarted transfers, removes them from the transmit
+                         map and emits SigSendFinished [id; 0; "session
+                         terminating"] for each, before the socket-closed event;
+   C09_closed_nothing_unstarted_unreported  in every reachable closed state that
+                         queue is empty and every id returned by send_bundle_data
+                         has a SigSendFinished or is in the transmit map (started);
    C09_closed_is_final   once the socket is closed, no operation changes
                          anything but the clock.
 
@@ -111,6 +120,26 @@ Theorem C09_no_queue_growth_when_terminating : forall (s : ep) (o : op), in_term
 Proof. exact pend_start_never_grows_when_terminating. Qed.
 Print Assumptions C09_no_queue_growth_when_terminating.
 
+Theorem C09_close_reports_unstarted : forall s : ep, closed s = false ->
+  pend_start (do_close s) = []
+  /\ tx_map (do_close s) = fold_left (fun m it => dict_del (fst it) m) (pend_start s) (tx_map s)
+  /\ trace (do_close s)
+     = trace s ++ map (fun it => ESig SigSendFinished [PStrNum (fst it); PInt 0; PStr RES_TERMINATING]) (pend_start s)
+               ++ [EClosed]
+  /\ closed (do_close s) = true.
+Proof. exact close_reports_unstarted. Qed.
+Print Assumptions C09_close_reports_unstarted.
+
+Theorem C09_closed_nothing_unstarted_unreported : forall (c : cfg) (ops : list op),
+  let s := run c ops in
+  closed s = true ->
+  pend_start s = []
+  /\ forall id, In (ERet 1 (PStrNum id)) (trace s) ->
+       (exists args, In (ESig SigSendFinished (PStrNum id :: args)) (trace s))
+       \/ (In id (map fst (tx_map s)) /\ ~ In id (map fst (pend_start s))).
+Proof. exact closed_nothing_unstarted_unreported. Qed.
+Print Assumptions C09_closed_nothing_unstarted_unreported.
+
 Theorem C09_closed_is_final : forall (s : ep) (o : op), closed s = true ->
   step s o = match o with OAdvance dt => s <| now := now s + dt |> | _ => s end.
 Proof. exact step_closed. Qed.
@@ -124,6 +153,14 @@ Example C09_example_refused :
   closed s = false /\ in_term s = true /\ pend_start (step s (OSend [4])) = pend_start s
   /\ tx_map (step s (OSend [4])) = tx_map s.
 Proof. vm_compute. repeat split; reflexivity. Qed.
+
+(* Non-vacuity: closing with a queued, unstarted bundle (before the session
+   exists) reports it. *)
+Example C09_example_close_reports :
+  let s := run (mkCfg false [100] 30 60 1000 500 None) [OStart; OSend [1;2;3]; OClose] in
+  closed s = true /\ pend_start s = []
+  /\ In (ESig SigSendFinished [PStrNum 1; PInt 0; PStr RES_TERMINATING]) (trace s).
+Proof. vm_compute. repeat split; auto. Qed.
 
 (* Non-vacuity: a reachable closed state; a reachable state in session with a
    queued transfer that handles a SESS_TERM. *)
